@@ -23,16 +23,17 @@ Print Assumptions C10_fail_at_j_rolls_back.
 Check C10_fail_at_j_rolls_back : forall j o ms d e,
   i_res (snd (run [j] o ms d)) = Some (RErr e) -> same_but_bookkeeping d (fst (run [j] o ms d)).
 
-(* a later run completes the whole upgrade to the same final state as an uninterrupted run *)
+(* a later run completes the whole upgrade to the same final state as an uninterrupted run
+   ([id_conflict ms d = false]: with a foreign recorded id every run must fail, C09_id_mismatch_reported) *)
 Theorem C10_rerun_completes : forall F o ms k d e,
-  ascending ms = true -> at_version k d = true ->
+  ascending ms = true -> at_version k d = true -> id_conflict ms d = false ->
   i_res (snd (run F o ms d)) = Some (RErr e) ->
   fst (run [] o ms (fst (run F o ms d))) = fst (run [] o ms d) /\
   i_res (snd (run [] o ms (fst (run F o ms d)))) = Some ROk.
 Proof. exact rerun_completes. Qed.
 Print Assumptions C10_rerun_completes.
 Check C10_rerun_completes : forall F o ms k d e,
-  ascending ms = true -> at_version k d = true ->
+  ascending ms = true -> at_version k d = true -> id_conflict ms d = false ->
   i_res (snd (run F o ms d)) = Some (RErr e) ->
   fst (run [] o ms (fst (run F o ms d))) = fst (run [] o ms d) /\
   i_res (snd (run [] o ms (fst (run F o ms d)))) = Some ROk.
